@@ -380,12 +380,18 @@ type compositeEntitySetSymbol struct {
 	chain       []iterableEntitySymbol
 	cursor      *stackedCursor
 	cursorLastF func(tx *bbolt.Tx, key []byte) (FieldType, []byte)
+	// lastSymbol is the final symbol of the path when it is not part of the cursor chain (see cursorLastF)
+	lastSymbol EntitySymbol
 }
 
 func (symbol *compositeEntitySetSymbol) getChain() []EntitySymbol {
 	var result []EntitySymbol
 	for _, chainSymbol := range symbol.chain {
 		result = append(result, chainSymbol)
+	}
+	if symbol.lastSymbol != nil {
+		// a longer path built on top of this one ends in the same symbol
+		result = append(result, symbol.lastSymbol)
 	}
 	return result
 }
